@@ -23,6 +23,8 @@ from pv.core import env
 from pv.core import findings
 
 HERE = env.VERIF_DIR
+# self-tests aim the checks at mutated copies; their evidence and replays must not overwrite the real ones
+OUT = os.environ.get('VERIF_OUT_DIR') or HERE
 
 
 def load_prop(pid):
@@ -180,12 +182,12 @@ def main(argv):
     rc = 0
     if unlisted:
         rc = 1
-        os.makedirs(os.path.join(HERE, 'replays', pid), exist_ok=True)
+        os.makedirs(os.path.join(OUT, 'replays', pid), exist_ok=True)
         for key, n, ws in unlisted:
             w = ws[0]
             name = '%s-%016x.json' % (key[:60].replace('/', '_').replace(' ', '_'),
                                       ctxmod.digest(w['case']))
-            path = os.path.join(HERE, 'replays', pid, name)
+            path = os.path.join(OUT, 'replays', pid, name)
             with open(path, 'w') as f:
                 json.dump({'property': pid, 'key': key, 'tier': tier, 'seed': seed,
                            'observed': n, 'case': w['case'], 'detail': w['detail']},
@@ -243,8 +245,8 @@ def write_evidence(mod, pid, tier, seed, m, wall_s, unlisted, listed, reasons, n
         'wall_s': round(wall_s, 2),
         'violations': sum(n for _, n, _ in unlisted),
     }
-    os.makedirs(os.path.join(HERE, 'evidence'), exist_ok=True)
-    path = os.path.join(HERE, 'evidence', '%s.json' % pid)
+    os.makedirs(os.path.join(OUT, 'evidence'), exist_ok=True)
+    path = os.path.join(OUT, 'evidence', '%s.json' % pid)
     with open(path + '.tmp', 'w') as f:
         json.dump(ev, f, indent=1, default=repr)
         f.write('\n')
